@@ -67,8 +67,21 @@ func parseSrc(src string) (f *parser.File, err error, pan interface{}) {
 	}()
 	fs := parser.NewFileSet()
 	sf := fs.AddFile("c20", -1, len(src))
-	p := parser.NewParser(sf, []byte(src), nil)
+	buf := []byte(src)
+	p := parser.NewParser(sf, buf, nil)
 	f, err = p.ParseFile()
+	if string(buf) != src {
+		// the same text must parse the same way every time it is parsed: the
+		// caller's bytes (Script.input, a module's source) are not the parser's
+		pan = fmt.Sprintf("the parser changed the source bytes it was given: %q became %q", src, buf)
+		return
+	}
+	// and it does: a second parse of the same buffer prints the same tree
+	fs2 := parser.NewFileSet()
+	f2, err2 := parser.NewParser(fs2.AddFile("c20", -1, len(buf)), buf, nil).ParseFile()
+	if (err == nil) != (err2 == nil) || (err == nil && f.String() != f2.String()) {
+		pan = fmt.Sprintf("parsing the same bytes a second time gives a different result (%v / %v)", err, err2)
+	}
 	return
 }
 
